@@ -124,6 +124,7 @@ inductive Err where
   | txClosed        -- ErrTransactionClosed
   | storageClosed   -- storage.ErrStorageClosed (a transaction talks to the storage manager directly)
   | badEntry        -- applier: unsupported WAL entry type
+  | recordTooLarge  -- wal.AppendBatch: "record too large" (a batch entry must fit one physical log record)
   deriving DecidableEq, Repr
 
 /-- the three texts a client sees when a write is refused because the node is a replica -/
@@ -297,14 +298,22 @@ def unlock (t : Tx) (e : Eng) : Eng :=
 def bufOps (buf : List KV) : List (Bool × Bytes × Bytes) :=
   buf.map (fun kv => match kv.2 with | some x => (false, kv.1, x) | none => (true, kv.1, []))
 
+/-- wal.AppendBatch's first pass (repair 685afc8): every entry of a batch must fit ONE physical log record of
+    `maxBatchRecord` bytes (wal.MaxRecordSize): `1 + 8 + 4 + len(key)`, plus `4 + len(value)` unless it is a delete -/
+def maxBatchRecord : Nat := 32768
+def batchEntryFits (o : Bool × Bytes × Bytes) : Bool :=
+  13 + o.2.1.length + (if o.1 then 0 else 4 + o.2.2.length) ≤ maxBatchRecord
+
 /-- Commit: a read-only transaction only releases its lock; a read-write one applies its buffer as ONE batch,
-    straight on the storage manager (no facade guard on this path). -/
+    straight on the storage manager (no facade guard on this path). A batch the log refuses (an entry larger than one
+    log record) fails the commit: nothing is applied, the transaction is closed, its lock released. -/
 def Tx.commit (t : Tx) (e : Eng) : Option Err × Tx × Eng :=
   if !t.active then (some .txClosed, t, e)
   else
     let t' := { t with active := false }
     if t.ro || t.buf.isEmpty then (none, t', unlock t e)
     else if e.closed then (some .storageClosed, t', unlock t e)
+    else if !(bufOps t.buf).all batchEntryFits then (some .recordTooLarge, t', unlock t e)
     else (none, t', unlock t { e with store := Kevo.Engine.batch e.store (bufOps t.buf) })
 
 def Tx.rollback (t : Tx) (e : Eng) : Option Err × Tx × Eng :=
@@ -610,8 +619,9 @@ def batchLoop (lg : List Guard) : Tx → List BOp → Option Err × Tx
 
 def scanOf (t : Tx) (e : Eng) (o : ScanOpts) : List (Bytes × Bytes) := scanRun o (t.view e) (t.rangeView e)
 
-def compactMarker : Bytes := "__compact_marker__".toUTF8.toList
-def compactForce : Bytes := "force".toUTF8.toList
+def compactMarker : Bytes :=   -- "__compact_marker__"
+  [0x5f, 0x5f, 0x63, 0x6f, 0x6d, 0x70, 0x61, 0x63, 0x74, 0x5f, 0x6d, 0x61, 0x72, 0x6b, 0x65, 0x72, 0x5f, 0x5f]
+def compactForce : Bytes := [0x66, 0x6f, 0x72, 0x63, 0x65]   -- "force"
 
 /-- begin a transaction through the facade and run `f` with it; `f` finishes the transaction itself -/
 def withTx (R : Rows) (ro : Bool) (st : Svc) (f : Tx → Eng → Resp × Eng) : Resp × Svc :=
